@@ -27,7 +27,7 @@ EXHAUSTIVE = {"quick": ["predicate corpus complete", "all 2^4 x species option c
 REQUIRE = {"predicate_objects": 200, "predicate_strings_exact": 150, "predicate_nonstrings": 60, "standardize_cases": 14,
            "standardize_cells_checked": 300, "standardize_missing_cells": 30, "standardize_col_mapper_cases": 3, "standardize_false_cases": 2,
            "standardize_locality_checks": 10, "tables_fingerprinted": 14, "multimerge_cases": 17, "multimerge_named_key_no_suffix": 6,
-           "multimerge_index_key": 6, "multimerge_suffix_cases": 8, "multimerge_inner": 3, "multimerge_left_right": 4}
+           "multimerge_index_key": 6, "multimerge_suffix_cases": 8, "multimerge_inner": 3, "multimerge_left_right": 4, "multimerge_identical_key_sequences": 24}
 SHARDS = {"quick": 4, "thorough": 16}
 AA = set("ACDEFGHIKLMNPQRSTVWY")
 
@@ -275,7 +275,7 @@ def _norm(v):
     return v
 
 
-def k_multimerge(ctx, tables, on, suffixes=None, how=None):
+def k_multimerge(ctx, tables, on, suffixes=None, how=None, same_keys=False):
     """tables: list of {name, cols, rows:[[key, v1, ...]]}; key stored in column `on` (or in the index when on == 'index')."""
     import pandas as pd
     import pyrepseq as prs
@@ -290,6 +290,8 @@ def k_multimerge(ctx, tables, on, suffixes=None, how=None):
         dfs.append(df)
     fps = [canon.fingerprint(d) for d in dfs]
     ctx.count("multimerge_cases")
+    if same_keys:
+        ctx.count("multimerge_identical_key_sequences")
     ctx.nontriv(["mm", tables, on, suffixes, how])
     if on == "index":
         ctx.count("multimerge_index_key")
@@ -473,6 +475,16 @@ def generate(tier, seed):
         for suf in (None, ["s1", "s2", "s3"]):
             yield "multimerge", {"tables": dupk, "on": on, "suffixes": suf}, True
             yield "multimerge", {"tables": dupk[:2], "on": on, "suffixes": suf and suf[:2]}, True
+    # every table lists the same key sequence, with a repeated key (a join is the per-key product, not a row-by-row pairing); also unique equal keys
+    same = [{"name": "a", "cols": ["x"], "rows": [["c1", 1], ["c2", 2], ["c1", 3]]}, {"name": "b", "cols": ["y"], "rows": [["c1", 4], ["c2", 5], ["c1", 6]]},
+            {"name": "c", "cols": ["z"], "rows": [["c1", 7], ["c2", 8], ["c1", 9]]}]
+    sameu = [{"name": "a", "cols": ["x"], "rows": [["c2", 1], ["c1", 2]]}, {"name": "b", "cols": ["y"], "rows": [["c2", 4], ["c1", 5]]}]
+    for on in ("k", "index"):
+        for how in (None, "inner", "left"):
+            yield "multimerge", {"tables": same, "on": on, "suffixes": ["s1", "s2", "s3"], "how": how, "same_keys": True}, True
+            yield "multimerge", {"tables": same[:2], "on": on, "suffixes": ["s1", "s2"], "how": how, "same_keys": True}, True
+            yield "multimerge", {"tables": same[:2], "on": on, "how": how, "same_keys": True}, True
+            yield "multimerge", {"tables": sameu, "on": on, "suffixes": ["s1", "s2"], "how": how, "same_keys": True}, True
     # key columns with falsy labels (the column named 0 of header-less tables, the empty string)
     for on in (0, ""):
         yield "multimerge", {"tables": base, "on": on}, True
